@@ -1,4 +1,4 @@
-import N2k.Lemmas.TextUcs
+import N2k.Lemmas.TextBuf
 /-!
 # C16 — Text fields never overrun a buffer and round-trip their content
 
@@ -226,5 +226,136 @@ example :
         pure (m.len, textOf 20 r.2.2.2))
       = .ok (15, [0xC3, 0xA9, 0xE2, 0x82, 0xAC, 0x41, 0x3F]) := by
   rfl
+
+/-! ## `AddVarStr(str)` (the two-argument form) -/
+
+/-- **C16_addVarStr2_safe.** `AddVarStr(str)` (= maximum 5000 bytes, unicode supported) at every fill level, for
+every source string — of length 0, 1, 253, 254, more than 254, longer than the free payload, invalid UTF-8 —
+never faults, keeps `DataLen ≤ 223`, changes nothing below the fill level, and appends a payload-independent
+list `L` (so nothing behind the field changes either) whose first byte, if any, is its own length. -/
+theorem C16_addVarStr2_safe (s : List Nat) (fill : Nat) (hfill : fill ≤ MaxDataLen) :
+    ∃ L : List Nat, fill + L.length ≤ MaxDataLen ∧ (∀ x, L.head? = some x → x = L.length) ∧
+      ∀ d, addVarStr2 ⟨d, fill⟩ (.at s) = .ok ⟨blit d fill L, fill + L.length⟩ := by
+  obtain ⟨L, hL, hshape, h⟩ := addVarStr_spec s fill 5000 true false hfill
+  refine ⟨L, by omega, ?_, h⟩
+  rcases hshape with ⟨_, rfl⟩ | ⟨_, rfl⟩ | ⟨_, type, body, rfl, _⟩
+  · simp
+  · simp
+  · simp
+
+/-- **C16_roundtrip_addVarStr2_ascii.** `GetVarStr(AddVarStr s) = s` for ASCII text that fits the free payload
+behind the two header bytes and the destination (with its terminator). -/
+theorem C16_roundtrip_addVarStr2_ascii (s : List Nat) (hs : ∀ b ∈ s, b ≠ 0 ∧ b < 0x80) (fill n : Nat) (d dst : D)
+    (hfit : fill + 2 + s.length ≤ MaxDataLen) (hn : s.length + 1 ≤ n) :
+    ∃ m' r sz idx' dst', addVarStr2 ⟨d, fill⟩ (.at s) = .ok m' ∧ m'.len = fill + 2 + s.length ∧
+      (∀ j, j < fill → m'.data j = d j) ∧
+      getVarStr3 m' n dst fill = .ok (r, sz, idx', dst') ∧ textOf n dst' = s := by
+  have hM : MaxDataLen = 223 := rfl
+  obtain ⟨m', r, sz, idx', dst', h1, _, h2, h3⟩ :=
+    rt_var_ascii s hs fill 5000 n true false d dst (by omega) (by omega)
+  obtain ⟨L, _, hshape, hadd⟩ := addVarStr_spec s fill 5000 true false (by omega)
+  have hm := (hadd d).symm.trans h1
+  injection hm with hm
+  have hbody := requireUnicode_ascii s (fun b hb => (hs b hb).2)
+  have hnz := nz_clean s (fun b hb => (hs b hb).1)
+  refine ⟨m', r, sz, idx', dst', h1, ?_, ?_, h2, ?_⟩
+  · rcases hshape with ⟨h, _⟩ | ⟨h, _⟩ | ⟨_, type, body, rfl, _, _, _, _, _, hb⟩
+    · omega
+    · omega
+    · rw [← hm]; simp only [List.length_cons]
+      rw [hb hbody, hnz, List.length_take]; omega
+  · intro j hj; rw [← hm]; exact blit_lt _ _ _ _ hj
+  · rw [h3, List.take_of_length_le (by rw [List.length_take]; omega), List.take_of_length_le (by omega)]
+
+/-- **C16_roundtrip_addVarStr2_unicode.** `GetVarStr(AddVarStr s) = s` for well-formed UTF-8 text with a
+multi-byte character whose UCS-2 form (2 bytes per character) fits the free payload behind the header and
+whose UTF-8 form fits the destination; 4-byte sequences come back as '?' (`Chr.back`). -/
+theorem C16_roundtrip_addVarStr2_unicode (cs : List Chr) (hwf : ∀ c ∈ cs, c.WF) (hmb : ∃ c ∈ cs, c.isAscii = false)
+    (fill n : Nat) (d dst : D) (hfit : fill + 2 + 2 * cs.length ≤ MaxDataLen)
+    (hn : (cs.flatMap Chr.back).length + 1 ≤ n) :
+    ∃ m' r sz idx' dst', addVarStr2 ⟨d, fill⟩ (.at (utf8 cs)) = .ok m' ∧
+      getVarStr3 m' n dst fill = .ok (r, sz, idx', dst') ∧ textOf n dst' = cs.flatMap Chr.back := by
+  have hM : MaxDataLen = 223 := rfl
+  have hne : cs ≠ [] := by obtain ⟨c, hc, _⟩ := hmb; exact List.ne_nil_of_mem hc
+  have hpos : 0 < cs.length := List.length_pos_iff.mpr hne
+  obtain ⟨m', r, sz, idx', dst', h1, _, h2, h3⟩ :=
+    rt_var_unicode cs hwf hmb fill 5000 n false d dst (by omega) (by omega)
+  refine ⟨m', r, sz, idx', dst', h1, h2, ?_⟩
+  have hk : min cs.length ((min (MaxDataLen - fill - 2) (if false = true then 5000 * 2 else 5000)) / 2) = cs.length := by
+    simp only [Bool.false_eq_true, if_false]; omega
+  rw [h3, hk, List.take_of_length_le (Nat.le_refl _), fitPrefix_all _ _ (by omega)]
+
+/-- text without 4-byte sequences is read back byte for byte -/
+theorem C16_back_eq_bytes (cs : List Chr) (h : ∀ c ∈ cs, ∀ x y z w, c ≠ Chr.four x y z w) :
+    cs.flatMap Chr.back = utf8 cs := by
+  induction cs with
+  | nil => rfl
+  | cons c t ih =>
+    rw [utf8_cons, List.flatMap_cons, ih (fun x hx => h x (by simp [hx]))]
+    cases c with
+    | four x y z w => exact absurd rfl (h _ (by simp) x y z w)
+    | a b => rfl
+    | two x y => rfl
+    | three x y z => rfl
+
+/-! ## byte arrays: `AddBuf` / `GetBuf` -/
+
+/-- **C16_addBuf_safe.** For every byte array (any length, 0 and longer than the free payload included), every
+fill level (also a full payload) and every stale payload content: `AddBuf` never faults, appends exactly the
+array clipped to the free payload — `DataLen` grows by `min len free` and stays ≤ 223 — and no other payload
+byte changes. -/
+theorem C16_addBuf_safe (buf : List Nat) (fill : Nat) (d : D) (hfill : fill ≤ MaxDataLen) :
+    ∃ m', addBuf ⟨d, fill⟩ buf = .ok m' ∧ m'.len = fill + min buf.length (MaxDataLen - fill) ∧
+      m'.len ≤ MaxDataLen ∧ (∀ j, j < fill → m'.data j = d j) ∧ (∀ j, m'.len ≤ j → m'.data j = d j) ∧
+      (∀ k, k < min buf.length (MaxDataLen - fill) → m'.data (fill + k) = buf.getD k 0) := by
+  have hl : (buf.take (MaxDataLen - fill)).length = min buf.length (MaxDataLen - fill) := by
+    rw [List.length_take]; omega
+  refine ⟨_, addBuf_eq buf fill d, rfl, by show fill + min buf.length (MaxDataLen - fill) ≤ MaxDataLen; omega,
+    fun j hj => blit_lt _ _ _ _ hj, fun j hj => blit_ge _ _ _ _ (by rw [hl]; exact hj), fun k hk => ?_⟩
+  show blit d fill (buf.take (MaxDataLen - fill)) (fill + k) = buf.getD k 0
+  rw [blit_in _ _ _ _ (by rw [hl]; exact hk)]
+  simp only [List.getD_eq_getElem?_getD, List.getElem?_take]
+  split
+  · rfl
+  · omega
+
+/-- **C16_getBuf_safe.** For every message, index (at or behind the end included) and length (0 included),
+into a caller buffer of at least `Length` bytes with arbitrary content: `GetBuf` never faults (no payload read
+at an index ≥ `DataLen`, no write at an index ≥ the buffer size); if `Index+Length ≤ DataLen` it copies exactly
+those `Length` payload bytes, leaves every buffer byte behind them unchanged and advances `Index` by `Length`;
+otherwise it refuses, writes nothing (no padding) and sets `Index = DataLen`. Without a buffer only `Index` moves. -/
+theorem C16_getBuf_safe (m : Msg) (n : Nat) (dst : D) (length idx : Nat) (hn : length ≤ n) :
+    (idx + length ≤ m.len →
+      ∃ dst', getBuf m n dst length idx = .ok (true, idx + length, dst') ∧
+        (∀ k, k < length → dst' k = m.data (idx + k)) ∧ (∀ j, length ≤ j → dst' j = dst j)) ∧
+    (¬ idx + length ≤ m.len → getBuf m n dst length idx = .ok (false, m.len, dst)) ∧
+    getBufNull m length idx = (if idx + length ≤ m.len then (true, idx + length) else (false, m.len)) := by
+  refine ⟨fun hfit => ?_, fun hfit => ?_, rfl⟩
+  · refine ⟨_, by rw [getBuf_eq m n dst length idx hn, if_pos hfit], fun k hk => ?_, fun j hj => ?_⟩
+    · have := blit_in dst 0 (slice m.data idx length) k (by simp; exact hk)
+      rw [Nat.zero_add] at this
+      rw [this, slice_getD m.data idx length k hk]
+    · exact blit_ge _ _ _ _ (by simp; omega)
+  · rw [getBuf_eq m n dst length idx hn, if_neg hfit]
+
+/-- **C16_roundtrip_buf.** A byte array that fits the free payload, added with `AddBuf` and read with `GetBuf`
+from the fill level into a buffer of at least its length, comes back byte for byte. -/
+theorem C16_roundtrip_buf (buf : List Nat) (fill n : Nat) (d dst : D) (hfit : fill + buf.length ≤ MaxDataLen)
+    (hn : buf.length ≤ n) :
+    ∃ m', addBuf ⟨d, fill⟩ buf = .ok m' ∧ m'.len = fill + buf.length ∧
+      getBuf m' n dst buf.length fill = .ok (true, fill + buf.length, blit dst 0 buf) :=
+  rt_buf buf fill n d dst hfit hn
+
+/-- **C16_roundtrip_buf_seq.** Two arrays added one after the other are read back one after the other with the
+same running `Index` (it advances by the length extracted — the behaviour fixed in /repo). -/
+theorem C16_roundtrip_buf_seq (a b : List Nat) (fill : Nat) (d x y : D)
+    (hfit : fill + a.length + b.length ≤ MaxDataLen) :
+    ∃ m1 m2, addBuf ⟨d, fill⟩ a = .ok m1 ∧ addBuf m1 b = .ok m2 ∧
+      m2.len = fill + a.length + b.length ∧ (∀ j, j < fill → m2.data j = d j) ∧
+      getBuf m2 a.length x a.length fill = .ok (true, fill + a.length, blit x 0 a) ∧
+      getBuf m2 b.length y b.length (fill + a.length) = .ok (true, fill + a.length + b.length, blit y 0 b) :=
+  rt_buf_seq a b fill d x y hfit
+
+example : (10 : Nat) + [1, 2, 3].length + [4, 5].length ≤ MaxDataLen := by decide
 
 end N2k.C16
